@@ -39,6 +39,29 @@ def run(ctx):
         bad = [(g.loc(bb), c) for g, bb, c in muts if c not in ("insert", "entry", "extend", "get", "contains_key", "len", "is_empty", "get_mut")]
         ctx.ob("R4", "parent-outputs-are-only-added-never-dropped", len(muts) >= 2 and not bad, bad[0][0] if bad else f_.loc(0),
                "mutating calls on the node-output maps: %s" % sorted({c for _, _, c in muts}) + ("; dropping: %s" % bad if bad else ""), f_)
+    # the verdict of one graph: Ok exactly when every level was run and nothing failed or was unsatisfied; the two
+    # rejecting verdicts under the corresponding non-empty list; no other way out (no shortcut that skips the levels)
+    fi = prog.fn(INNER)
+    if fi is not None:
+        rows = [(v, at) for _, v, at in M.return_table(prog, fi)]
+        LV = r"^is:None\(<std::vec::IntoIter<T, A> as std::iter::Iterator>::next\(<std::vec::Vec<T, A> as std::iter::IntoIterator>::into_iter\("
+        oks = [(v, at) for v, at in rows if v.startswith("Result::Ok{")]
+        ok_shape = len(oks) == 1 and len(oks[0][1]) >= 3 and any(re.match(LV, a) for a in oks[0][1]) and [a for a in oks[0][1] if a.startswith("true:Vec::is_empty(")].__len__() == 2
+        kinds = []
+        for v, at in rows:
+            last = at[-1] if at else ""
+            if v == "<propagate error>" and re.match(r"^err\(essential_check::solution::(create_parent_map|parallel_topo_sort)\(", last):
+                kinds.append("invalid-graph")
+            elif "ProgramErrors::ProgramErrors" in v and (last.startswith("false:") or any(a.startswith("is:Err(") for a in at)):
+                kinds.append("program-errors")
+            elif "ConstraintsUnsatisfied::ConstraintsUnsatisfied" in v and last.startswith("false:Vec::is_empty("):
+                kinds.append("unsatisfied")
+            elif v.startswith("Result::Ok{"):
+                kinds.append("ok")
+            else:
+                kinds.append("OTHER:%s under %s" % (v[:50], last[:60]))
+        ctx.ob("R3", "graph-verdict:Ok-only-after-every-level-ran-and-nothing-failed", ok_shape and sorted(kinds) == sorted(["invalid-graph", "invalid-graph", "program-errors", "program-errors", "unsatisfied", "ok"]),
+               fi.loc(0), "returns %s; Ok under %s" % (kinds, [[a[:40] for a in at] for _, at in oks]), fi)
     # a child starts from the concatenation of its parents' stacks / memories, accepted exactly up to the VM limits
     from .. import access as A_
     A_.from_words_tables(ctx, "R4")
@@ -81,6 +104,14 @@ def run(ctx):
         arg = M.render(pvc.of_operand(t["args"][1]))
         want = "tuple{ix, std::iter::Iterator::collect(std::iter::Iterator::filter_map(slice::iter(<std::collections::BTreeMap<K, V, A> as std::ops::Index<&Q>>::index(<env>._ref__parent_map, ix)), {closure#0}))}"
         ctx.ob("R4", "start-site-%s:inputs=parents-of-ix-in-map-order" % c.path.split("::")[-1], arg == want, c.loc(bb), "run(%s)" % arg[:260], c)
+        # each parent's output is looked up in the cross-pass cache first and in this pass's cache otherwise (both start sites alike)
+        g1 = prog.fn(c.path + "::{closure#0}")
+        g2 = prog.fn(c.path + "::{closure#0}::{closure#0}")
+        r1 = M.render(prog.prov(g1).of_local(0)) if g1 else None
+        r2 = M.render(prog.prov(g2).of_local(0)) if g2 else None
+        ctx.ob("R4", "start-site-%s:parent-output-from-cross-pass-cache-else-this-pass" % c.path.split("::")[-1],
+               r1 == "Option::or_else(Option::cloned(std::collections::HashMap::get(<env>._ref__cache, parent_ix)), {closure#0})"
+               and r2 == "Option::cloned(std::collections::HashMap::get(<env>._ref__local_cache, <env>._ref__parent_ix))", c.loc(bb), "per parent: %s / %s" % (r1, r2), c)
     ctx.ob("R1", "two-start-sites(serial,parallel)", starts == 2, f.loc(0), "%d closures invoke `run`" % starts, f)
     # parent lists are built in ascending node order
     pm = prog.fn("essential_check::solution::create_parent_map")
@@ -294,6 +325,7 @@ def r6(ctx, prog):
         ctx.ob("R6", "cache-written-back-under-its-own-index", ok, c2.loc(0), "writes %s" % [(a[:70], b) for _, a, b in st], c2)
         r = A.norm(M.render(A.positional(cv.pv.of_local(0), cv.env)))
         ctx.ob("R6", "outputs-tagged-with-their-solution-index", r == "essential_check::solution::DataFromSolution::DataFromSolution{$2.0, $2.1.1}", c2.loc(0), "yields %s" % r, c2)
+    A.run_program_access(ctx, "R6")
     dm = prog.fn("essential_check::solution::decode_mutations")
     if ctx.anchor("R6", "fn decode_mutations", dm):
         ctx.saw(dm)
@@ -310,4 +342,8 @@ def r6(ctx, prog):
             if a == "$2.solutions" and x.kind == "field" and isinstance(x.meta, dict) and str(x.meta.get("of", "")).endswith("::DataFromSolution") and x.meta.get("ty") == "u16" \
                     and re.search(r"Iterator>::next\(.*into_iter\(\$1\.\w+\)\) as Some\)\.0\.\w+$", b):
                 ok = True
+        if not getattr(ctx, "_src", None):
+            from . import C16
+            from .C19 import _Only
+            C16.run(_Only(ctx, "R4", "R6"))
         ctx.ob("R6", "computed-mutations-go-to-the-solution-named-by-the-output", ok, dm.loc(ix[0][0]) if ix else dm.loc(0), "indexing %s" % [(a, b[-60:]) for a, b in got], dm)
